@@ -648,6 +648,7 @@ pub struct Stats {
     pub other_file_mismatch: usize,
     pub dead_code_only_mismatch: usize,
     pub uncompilable_steps: usize,
+    pub use_kind_only_mismatch: usize,
 }
 
 pub enum Fail {
@@ -716,6 +717,24 @@ fn is_dead_code_warning(d: &str) -> bool {
     // "warning|range|This function is never called." and its siblings from the dead-code analysis
     let mut parts = d.splitn(3, '|');
     parts.next() == Some("warning") && parts.nth(1).is_some_and(|m| m.starts_with("This ") && (m.contains(" is never ") || m.contains(" are never ")))
+}
+fn mask_use_kinds(f: &FileObs, text: &str) -> FileObs {
+    let lines: Vec<&str> = text.split('\n').collect();
+    let mut g = f.clone();
+    for t in g.tokens.iter_mut() {
+        let line: usize = t.split(':').next().and_then(|l| l.parse().ok()).unwrap_or(usize::MAX);
+        let is_use = lines.get(line).is_some_and(|l| {
+            let l = l.trim_start();
+            l.starts_with("use ") || l.starts_with("pub use ")
+        });
+        if is_use {
+            let mut parts = t.splitn(3, '|');
+            let (r, _k, n) = (parts.next().unwrap_or(""), parts.next(), parts.next().unwrap_or(""));
+            *t = format!("{r}|*|{n}");
+        }
+    }
+    g.tokens.sort();
+    g
 }
 fn mask_dead_code(f: &FileObs) -> FileObs {
     let mut g = f.clone();
@@ -868,6 +887,15 @@ pub fn run_case(corpus: &[CorpusProject], c: &Case, strict_other_files: bool) ->
                         }
                         continue;
                     }
+                    // KNOWN finding: the kind of an imported item's token on a `use` line (Unknown from the parsed
+                    // tree vs the typed kind) depends on the traversal mode; kinds on `use` lines are compared separately
+                    let (a, b) = (&mask_use_kinds(a, &cur.files[r]), &mask_use_kinds(b, &cur.files[r]));
+                    if a == b {
+                        if r == rel {
+                            st.use_kind_only_mismatch += 1;
+                        }
+                        continue;
+                    }
                     let what = if a.diagnostics != b.diagnostics {
                         ("diagnostics", first_diff(&a.diagnostics, &b.diagnostics))
                     } else if a.symbols != b.symbols {
@@ -952,6 +980,14 @@ pub fn run(ctx: &Ctx) {
                     rep.class_n("didChange_compared", st.changes as u64);
                     rep.class_n("other_file_mismatch_informational", st.other_file_mismatch as u64);
                     rep.class_n("steps_skipped:text_has_no_program", st.uncompilable_steps as u64);
+                    if st.use_kind_only_mismatch > 0 {
+                        rep.class_n("known:use-item-token-kind-differs(didChange steps)", st.use_kind_only_mismatch as u64);
+                        rep.violation(Violation {
+                            signature: "tokens:use-item-kind-differs".into(),
+                            summary: format!("project {} gc={}: token kinds on `use` lines of the edited file differ from a fresh compilation in {} step(s)", pick_project(&corpus, c).label, c.gc, st.use_kind_only_mismatch),
+                            replay: case_json(&corpus, c),
+                        });
+                    }
                     if st.dead_code_only_mismatch > 0 {
                         rep.class_n("known:dead-code-warnings-differ(didChange steps)", st.dead_code_only_mismatch as u64);
                         rep.violation(Violation {
